@@ -270,35 +270,37 @@ def check_acos(ctx, repo):
     fa = FA(f)
     ctx.cover(f)
     n = 0
+    vec_names = {'xyz', f.params[0], f.params[2]}
     for c in walk_local(f.node):
-        if isinstance(c, ast.Call) and call_name(c) in ('arccos', 'acos', 'arcsin') and c.args:
+        if isinstance(c, ast.Call) and call_name(c) in ('arccos', 'acos', 'arcsin', 'asin') and c.args:
             arg = c.args[0]
-            chain = []
-            e = arg
-            for _ in range(6):
-                chain.append(e)
-                if isinstance(e, ast.Name):
-                    d = fa.resolve(e)
-                    if d is None:
-                        break
-                    e = d
-                else:
-                    break
-            deepest = chain[-1]
-            is_dot = any(isinstance(x, ast.Call) and call_name(x) in ('dot', 'inner', 'einsum', 'matmul', 'tensordot') for x in ast.walk(deepest)) or \
-                any(isinstance(x, ast.BinOp) and isinstance(x.op, ast.MatMult) for x in ast.walk(deepest))
-            if not is_dot:
-                continue
+            # transitive closure of the argument's definitions
+            chain = [arg]
+            seen = set()
+            work = [arg]
+            while work:
+                e = work.pop()
+                for nm in ast.walk(e):
+                    if isinstance(nm, ast.Name) and isinstance(nm.ctx, ast.Load):
+                        for d, v in fa.defs(nm):
+                            if v is not None and id(v) not in seen:
+                                seen.add(id(v))
+                                chain.append(v)
+                                work.append(v)
+            names = {x.id for y in chain for x in ast.walk(y) if isinstance(x, ast.Name)}
+            if not (names & vec_names):
+                continue          # e.g. arccos(1 - |cm|): a function of the cap size only
             n += 1
-            clipped = any(isinstance(x, ast.Call) and call_name(x) == 'clip' and len(x.args) >= 3 and try_fold(x.args[1]) == -1 and try_fold(x.args[2]) == 1
-                          for y in chain for x in ast.walk(y)) or \
+            clipped = any(isinstance(x, ast.Call) and call_name(x) == 'clip' and len(x.args) >= 3 for y in chain for x in ast.walk(y)) or \
                 (any(isinstance(x, ast.Call) and call_name(x) in ('minimum', 'fmin') for y in chain for x in ast.walk(y)) and
-                 any(isinstance(x, ast.Call) and call_name(x) in ('maximum', 'fmax') for y in chain for x in ast.walk(y)))
-            ctx.check('C12.ACOS-DOT', clipped, f, c, 'cap_distance: the inner product is clipped to [-1, 1] before arccos (%s)' % src(deepest)[:60],
-                      msg='cap_distance takes arccos of an unclipped inner product of unit vectors: for a point at the cap centre the '
-                          'product can exceed 1 by an ulp, arccos gives NaN and the point is reported outside',
-                      construct='arccos(%s)' % src(deepest)[:60])
-    ctx.need(n >= 1, 'cap_distance: arccos of an inner product not found')
+                 any(isinstance(x, ast.Call) and call_name(x) in ('maximum', 'fmax') for y in chain for x in ast.walk(y))) or \
+                (call_name(c) in ('arcsin', 'asin') and any(isinstance(x, ast.Call) and call_name(x) in ('minimum', 'fmin') for y in chain for x in ast.walk(y)))
+            ctx.check('C12.ACOS-DOT', clipped, f, c, 'cap_distance: the argument of %s computed from the point and the cap axis is clipped to its domain (%s)'
+                      % (call_name(c), src(arg)[:50]),
+                      msg='cap_distance takes %s of `%s`, a quantity computed from unit vectors in floating point, without clipping it to the domain: for a point '
+                          'at the cap centre or at its antipode rounding pushes it past 1, the result is NaN and the point is reported outside'
+                          % (call_name(c), src(arg)[:50]), construct='unclipped %s(%s)' % (call_name(c), src(arg)[:50]))
+    ctx.need(n >= 1, 'cap_distance: inverse trigonometric function of the point/axis geometry not found')
     # CAP-SIGN
     rets = [r for r in walk_local(f.node) if isinstance(r, ast.Return) and r.value is not None]
     ctx.need(len(rets) == 1, 'cap_distance: expected a single return')
@@ -427,15 +429,43 @@ def check_cap_bit(ctx, repo):
     ctx.cover(f)
     rets = [r for r in walk_local(f.node) if isinstance(r, ast.Return) and r.value is not None]
     ok = False
-    if len(rets) == 1 and isinstance(rets[0].value, ast.Compare) and isinstance(rets[0].value.ops[0], ast.NotEq) and try_fold(rets[0].value.comparators[0]) == 0:
-        l = rets[0].value.left
-        if isinstance(l, ast.BinOp) and isinstance(l.op, ast.BitAnd):
-            sides = [l.left, l.right]
-            sh = [s for s in sides if isinstance(s, ast.BinOp) and isinstance(s.op, ast.LShift) and try_fold(s.left) == 1 and src(s.right) == f.params[1]]
-            nm = [s for s in sides if isinstance(s, ast.Name) and s.id == f.params[0]]
-            ok = len(sh) == 1 and len(nm) == 1
-    ctx.check('C12.CAP-BIT', ok, f, rets[0] if rets else f.node, 'is_cap_used(u, i) is (u & (1 << i)) != 0',
+    kind = None
+    u, i = f.params[0], f.params[1]
+
+    def bit_test(e):
+        """'bool' / 'int' when e tests exactly bit i of u."""
+        if isinstance(e, ast.Compare) and len(e.ops) == 1 and isinstance(e.ops[0], (ast.NotEq, ast.Gt)) and try_fold(e.comparators[0]) == 0:
+            return 'bool' if bit_test(e.left) else None
+        if isinstance(e, ast.Call) and call_name(e) == 'bool' and e.args:
+            return 'bool' if bit_test(e.args[0]) else None
+        if isinstance(e, ast.BinOp) and isinstance(e.op, ast.BitAnd):
+            for a, b in ((e.left, e.right), (e.right, e.left)):
+                if isinstance(a, ast.Name) and a.id == u and isinstance(b, ast.BinOp) and isinstance(b.op, ast.LShift) and try_fold(b.left) == 1 and src(b.right) == i:
+                    return 'int'
+                if isinstance(a, ast.BinOp) and isinstance(a.op, ast.RShift) and src(a.left) == u and src(a.right) == i and try_fold(b) == 1:
+                    return 'int'
+        return None
+    if len(rets) == 1:
+        kind = bit_test(rets[0].value)
+        ok = kind is not None
+    ctx.check('C12.CAP-BIT', ok, f, rets[0] if rets else f.node, 'is_cap_used(u, i) tests exactly bit i of u (%s-valued)' % kind,
               msg='is_cap_used does not test exactly bit i: %s' % (src(rets[0].value) if rets else ''), construct='is_cap_used body')
+    if kind == 'int':
+        # 0/1 integers are fine in boolean context only; as an array index they select rows 0 and 1 instead of masking
+        from ..callgraph import CallGraph
+        cg = CallGraph(repo)
+        for g, cs in sorted(cg.calls.items(), key=lambda kv: (kv[0].rel, kv[0].qualname)):
+            for c, h in cs:
+                if h is not f:
+                    continue
+                par = getattr(c, '_parent', None)
+                boolean = isinstance(par, (ast.If, ast.While, ast.IfExp)) and par.test is c or isinstance(par, ast.BoolOp) or \
+                    (isinstance(par, ast.UnaryOp) and isinstance(par.op, ast.Not)) or isinstance(par, ast.Compare) or \
+                    (isinstance(par, ast.Call) and call_name(par) == 'bool')
+                ctx.check('C12.CAP-BIT', boolean, g, c, '%s uses the 0/1 result of is_cap_used in boolean context' % g.qualname,
+                          msg='%s stores the integer 0/1 result of is_cap_used (`%s`): used as an array index it selects rows 0 and 1 instead of acting '
+                              'as a mask, so the wrong caps are tested' % (g.qualname, src(par)[:60] if par is not None else ''),
+                          construct='integer cap flag outside boolean context in %s' % g.qualname)
     # presets
     f_init = repo.func(MANGLE, 'ManglePolygon.__init__')
     pres = [st for st in walk_local(f_init.node) if isinstance(st, ast.Assign) and src(st.targets[0]) == 'self.use_caps' and isinstance(st.value, ast.BinOp)]
@@ -463,5 +493,5 @@ def run(ctx):
     check_slices(ctx, repo)
     check_set_use_caps(ctx, repo)
     check_acos(ctx, repo)
-    check_and_all(ctx, repo)
     check_cap_bit(ctx, repo)
+    check_and_all(ctx, repo)
